@@ -251,9 +251,24 @@ func (c *Ctx) lambda(resultSort, body string) string {
 	return name
 }
 
+// lambdaRef: like lambda, for an array indexed by object reference (Int);
+// the bound variable is written r!l.
+func (c *Ctx) lambdaRef(resultSort, body string) string {
+	c.n++
+	name := fmt.Sprintf("lamr!%d", c.n)
+	c.decls = append(c.decls, "LAMBDAR\t"+name+"\t"+resultSort+"\t"+body)
+	return name
+}
+
 func expandLambdaDecl(line string, forCVC5 bool) string {
 	parts := strings.SplitN(line, "\t", 4)
 	name, sort, body := parts[1], parts[2], parts[3]
+	if parts[0] == "LAMBDAR" {
+		if !forCVC5 {
+			return fmt.Sprintf("(define-fun %s () (Array Int %s) (lambda ((r!l Int)) %s))", name, sort, body)
+		}
+		return fmt.Sprintf("(declare-const %s (Array Int %s))\n(assert (forall ((r!l Int)) (! (= (select %s r!l) %s) :pattern ((select %s r!l)))))", name, sort, name, body, name)
+	}
 	if !forCVC5 {
 		return fmt.Sprintf("(define-fun %s () (Array (_ BitVec 64) %s) (lambda ((k!l (_ BitVec 64))) %s))", name, sort, body)
 	}
